@@ -793,4 +793,5 @@ if __name__ == "__main__":
                         assumptions=["limiter theorems hold for histories satisfying OneWaitPerBorrower and "
                                      "ReleaseAfterReturn (no second acquire, and no release, for a borrower whose "
                                      "acquire call has not returned); the generator enforces this, a separate "
-                                     "misuse stream violates it and is reported as information only"]))
+                                     "misuse stream violates it and is reported as information only"],
+                        quick_s=45.0, thorough_s=600.0))
